@@ -10,6 +10,7 @@
 -/
 import Scico.Proofs.Cache
 import Scico.Proofs.CacheOpts
+import Scico.Proofs.CacheJit
 
 namespace Scico.Props.C19
 open Scico.Cache
@@ -293,6 +294,57 @@ example : (OptWorld.run .copyUpdate [("tol", 4), ("maxiter", 100)] (OptWorld.ini
     [.userDict [("tol", 3)], .ctor (some 1), .ctor none] : OptWorld Nat).dicts
     = [[("tol", 4), ("maxiter", 100)], [("tol", 3)], [("tol", 3), ("maxiter", 100)], [("tol", 4), ("maxiter", 100)]] := by
   decide
+
+/-! ### the `jit` option of linear operators: what is replaced by a `jax.jit` object, and when -/
+
+/-- For every way of constructing a `LinearOperator` (adjoint given / defined by the subclass / derived lazily), with the
+    constructor option `jit` on or off, after ANY history of `jit()`, `A(x)`, `A.adj(y)`, `A.gram(x)`, `A.gram_op`:
+    `_eval` is wrapped exactly as many times as `jit()` was called (`n`); the adjoint callable, once it exists, is the one
+    this kind of object is specified to use (never another one, whatever came first) and is wrapped `n` times; likewise
+    `_gram`; after the first `jit()` all three exist; and the constructor option is the same as calling `jit()` right
+    after construction. -/
+theorem C19_jit_slots (v : LinOpVariant) (jit : Bool) (ops : List LinOpOp) :
+    let s := (LinOpState.init v jit).run ops
+    let n := jitCount jit ops
+    s.evalDepth = n ∧ (∀ a, s.adj = some a → a = (specAdjSrc v, n)) ∧ (∀ g, s.gram = some g → g = n) ∧
+      (0 < n → s.adj ≠ none ∧ s.gram ≠ none) ∧ (v ≠ .plain → s.adj ≠ none) ∧
+      LinOpState.init v true = (LinOpState.init v false).jit := by
+  intro s n
+  have h := LinOpState.inv_run v ops _ _ (LinOpState.inv_init v jit)
+  have hn : ((if jit then 1 else 0) + (ops.filter (· == LinOpOp.jit)).length) = n := rfl
+  rw [hn] at h
+  refine ⟨h.ev, ?_, ?_, h.jitted, h.given, ?_⟩
+  · intro a ha
+    rcases h.adjOk with hno | hs
+    · rw [hno] at ha; cases ha
+    · rw [hs] at ha; exact (Option.some.inj ha).symm
+  · intro g hg
+    rcases h.gramOk with hno | hs
+    · rw [hno] at hg; cases hg
+    · rw [hs] at hg; exact (Option.some.inj hg).symm
+  · simp [LinOpState.init]
+
+/-- Values: GIVEN the contract of `jax.jit` on values (`J f = f`, extensionally — NOT proved here, exercised by the
+    multi-mode tie), a slot wrapped any number of times denotes the function it wraps; so after any history the
+    adjoint evaluated is the specified one and `_eval` is the operator's own map. -/
+theorem C19_jit_value {F : Type} (J : F → F) (hJ : ∀ f, J f = f) (fns : AdjSrc → F) (e : F)
+    (v : LinOpVariant) (jit : Bool) (ops : List LinOpOp) :
+    let s := (LinOpState.init v jit).run ops
+    Nat.iterate J s.evalDepth e = e ∧ ∀ a, s.adj = some a → Nat.iterate J a.2 (fns a.1) = fns (specAdjSrc v) := by
+  intro s
+  have hit : ∀ (d : Nat) (f : F), Nat.iterate J d f = f := by
+    intro d
+    induction d with
+    | zero => intro f; rfl
+    | succ d ih => intro f; rw [Function.iterate_succ_apply, hJ, ih]
+  refine ⟨hit _ _, ?_⟩
+  intro a ha
+  rw [hit, ((C19_jit_slots v jit ops).2.1 a ha)]
+
+-- non-vacuity: no adjoint given, `gram_op` first, then `adj`, then `jit()` twice
+example : (LinOpState.init .plain false).run [.gramOp, .adj, .jit, .call, .jit] = ⟨2, some (.derived, 2), some 2⟩ := by decide
+example : (LinOpState.init .classAdj true).run [.gram] = ⟨1, some (.classMethod, 1), some 1⟩ := by decide
+example : (LinOpState.init .plain false).run [.gram] = ⟨0, some (.derived, 0), some 0⟩ := by decide
 
 /-! ### random generators -/
 
